@@ -164,5 +164,26 @@ v('c19-icon-refetch', 'C19', 'fire', B, "            if (!st->small_icon && st->
 v('c19-double-free', 'C19', 'fire', B, "    lltd_port_free(probe);\n    return true;\n}", "    lltd_port_free(probe);\n    if (ack) lltd_port_free(probe);\n    return true;\n}", 'R19.b')
 v('c19-hwid-leak', 'C19', 'fire', B, "                        break;\n                    }\n                }\n                should_free = true;", "                        break;\n                    }\n                }\n                should_free = (dataSize > 0);", 'R19.b')
 
+# ---- C16
+v('c16-lost-decrement', 'C16', 'fire', A, "            entry->valid = false;\n            if (table->count > 0) {\n                table->count--;\n            }\n            break;", "            entry->valid = false;\n            break;", 'R16.remove')
+v('c16-insert-without-lookup', 'C16', 'fire', A, "    session_entry *existing = session_table_find(table, mapper_mac, generation, seq);\n    if (existing) {", "    session_entry *existing = NULL;\n    if (existing) {", 'R16.add')
+v('c16-expiry-600', 'C16', 'fire', A, "                if (now_s > entry->last_activity_ts + 60) {", "                if (now_s > entry->last_activity_ts + 600) {", 'R16.expiry')
+v('c16-expiry-ge', 'C16', 'fire', A, "                if (now_s > entry->last_activity_ts + 60) {", "                if (now_s >= entry->last_activity_ts + 60) {", 'R16.expiry')
+v('c16-stale-flag-after-remove', 'C16', 'fire', A, "            break;\n        }\n    }\n\n    session_table_update_complete_status(table);\n}", "            break;\n        }\n    }\n}", 'R16.remove')
+v('c16-find-ignores-generation', 'C16', 'fire', A, "        if (entry->valid &&\n            mac_equal(entry->mapper_mac, mapper_mac) &&\n            entry->generation == generation) {\n            return entry;", "        if (entry->valid &&\n            mac_equal(entry->mapper_mac, mapper_mac)) {\n            return entry;", 'R16.find')
+v('c16-find-skips-valid', 'C16', 'fire', A, "        if (entry->valid &&\n            mac_equal(entry->mapper_mac, mapper_mac) &&\n            entry->generation == generation) {\n            return entry;", "        if (mac_equal(entry->mapper_mac, mapper_mac) &&\n            entry->generation == generation) {\n            return entry;", 'R16.find')
+v('c16-find-15-entries', 'C16', 'fire', A, "    for (int i = 0; i < SESSION_TABLE_MAX_ENTRIES; i++) {\n        session_entry *entry = &table->entries[i];\n        if (entry->valid &&\n            mac_equal(entry->mapper_mac, mapper_mac) &&\n            entry->generation == generation) {\n            return entry;", "    for (int i = 0; i < SESSION_TABLE_MAX_ENTRIES - 1; i++) {\n        session_entry *entry = &table->entries[i];\n        if (entry->valid &&\n            mac_equal(entry->mapper_mac, mapper_mac) &&\n            entry->generation == generation) {\n            return entry;", 'R16.find')
+v('c16-insert-no-count', 'C16', 'fire', A, "            table->count++;\n            table->all_complete = false;", "            table->all_complete = false;", 'R16.add')
+v('c16-insert-keeps-flag', 'C16', 'fire', A, "            table->count++;\n            table->all_complete = false;", "            table->count++;", 'R16.add')
+v('c16-insert-overwrites-valid', 'C16', 'fire', A, "        if (!entry->valid) {\n            mac_copy(entry->mapper_mac, mapper_mac);", "        if (!entry->valid || i == 3) {\n            mac_copy(entry->mapper_mac, mapper_mac);", 'R16.add')
+v('c16-status-ignores-valid', 'C16', 'fire', A, "        if (entry->valid) {\n            any_valid = true;\n            if (!entry->complete) {\n                all_complete = false;\n                break;\n            }\n        }", "        {\n            any_valid = true;\n            if (!entry->complete) {\n                all_complete = false;\n                break;\n            }\n        }", 'R16.status')
+v('c16-clear-keeps-count', 'C16', 'fire', A, "    lltd_port_memset(table->entries, 0, sizeof(table->entries));\n    table->count = 0;", "    lltd_port_memset(table->entries, 0, sizeof(table->entries));", 'R16.clear')
+v('c16-empty-by-flag', 'C16', 'fire', A, "    return table->count == 0;", "    return table->all_complete;", 'R16.query')
+v('c16-remove-all-matching', 'C16', 'fire', A, "            if (table->count > 0) {\n                table->count--;\n            }\n            break;\n        }\n    }\n\n    session_table_update_complete_status(table);", "            if (table->count > 0) {\n                table->count--;\n            }\n        }\n    }\n\n    session_table_update_complete_status(table);", 'R16.remove', 'benign in a consistent table (keys are unique) - but the rule demands the single-invalidation shape')
+V[-1]['expect'] = 'silent'
+V[-1]['id'] = 'c16-benign-remove-no-break'
+v('c16-external-writer', 'C16', 'fire', A, "void band_do_hello(band_state *band) {\n    if (!band) {\n        return;\n    }", "static session_table *g_tbl;\nvoid band_do_hello(band_state *band) {\n    if (g_tbl) { g_tbl->count = 0; }\n    if (!band) {\n        return;\n    }", 'R16.a')
+v('c16-benign-find-while', 'C16', 'silent', A, "    for (int i = 0; i < SESSION_TABLE_MAX_ENTRIES; i++) {\n        session_entry *entry = &table->entries[i];\n        if (entry->valid &&\n            mac_equal(entry->mapper_mac, mapper_mac) &&\n            entry->generation == generation) {\n            return entry;\n        }\n    }\n    return NULL;\n}\n\nsession_entry *session_table_add", "    int i = 0;\n    while (i < SESSION_TABLE_MAX_ENTRIES) {\n        session_entry *entry = &table->entries[i];\n        i++;\n        if (!entry->valid) {\n            continue;\n        }\n        if (entry->generation == generation && mac_equal(entry->mapper_mac, mapper_mac)) {\n            return entry;\n        }\n    }\n    return NULL;\n}\n\nsession_entry *session_table_add")
+
 json.dump(V, open(os.path.join(HERE, 'variants.json'), 'w'), indent=1)
 print(len(V), 'variants')
